@@ -427,6 +427,9 @@ def extract_let_block(fn_src, var):
 #     binding, 0-based); an optional ".then"/".else" suffix selects a branch of an `if c {a} else {b}`
 #     output expression explicitly.  `_mm*_movemask_epi8(e) [as T]*` marks a mask output whose lane
 #     is `e`.
+#   * "pins": [names]: bindings that are NOT translated (scalar mask arithmetic, cross-lane code) but
+#     whose source text (all bindings / re-assignments of that name, in order) is emitted as
+#     `<lean>_pin_<name>_src : List String`, so that a property can pin it with a `decide`d equality.
 #   * cross-lane intrinsics (`alignr`, `permute*`, `shuffle*`, `sad_epu8`, `unpack*`, `pack*`,
 #     `slli/srli_si128`, `bslli/bsrli`, `blendv`, `insert/extract`, loads) anywhere in the slice of an
 #     output that is not a declared input -> Unsupported.
@@ -646,6 +649,13 @@ class LaneTranslator:
                 res.append((t, e, depth_at[i], False))
                 i += 2
                 continue
+            if k == "id" and prev in (";", "{", "}") and i + 2 < n and body[i + 1][1] in ("|", "&", "^", "+", "-") \
+                    and body[i + 2][1] == "=":
+                # `name op= e;` (scalar mask arithmetic): recorded as a re-assignment `name op e`
+                e, _ = expr_until_semicolon(i + 3)
+                res.append((t, [body[i], body[i + 1]] + e, depth_at[i], False))
+                i += 3
+                continue
             if t == "*" and prev in (";", "{", "}") and i + 2 < n and body[i + 1][0] == "id" and body[i + 2][1] == "=":
                 e, _ = expr_until_semicolon(i + 3)
                 res.append((body[i + 1][1], e, depth_at[i], False))
@@ -736,6 +746,11 @@ class LaneTranslator:
             elif name in let_depth and depth > let_depth[name]:
                 kind = "cond"       # re-assigned inside a nested block: value depends on control flow
             self.versions.setdefault(name, []).append((kind, e, len(order) + idx))
+        self.pin_src = {}
+        for name in getattr(self, "pins", []):
+            if name not in self.versions or not any(v[0] != "param" for v in self.versions[name]):
+                raise Unsupported(f"pinned binding {name} not found in {self.fn_name}")
+            self.pin_src[name] = [" ".join(t[1] for t in v[1]) for v in self.versions[name] if v[0] != "param"]
         self.input_src = {}
         for name in self.inputs:
             if name not in self.versions:
@@ -1142,12 +1157,18 @@ def translate_lanes(file_text, lean, fn, spec):
     inputs = spec.get("inputs", [])
     outputs = spec.get("outputs", ["return"])
     lt = LaneTranslator(file_text, fn, inputs)
+    lt.pins = spec.get("pins", [])
     results = lt.translate(outputs)
     out = []
     for name, srcs in lt.input_src.items():
         lits = ", ".join('"' + s.replace("\\", "\\\\").replace('"', '\\"') + '"' for s in srcs)
         out.append(f"/-- source text of the binding(s) of lane input `{name}` of `{fn}` (not translated: "
                    f"memory / cross-lane; modelled by hand) -/\ndef {lean}_input_{name}_src : List String := [{lits}]\n")
+    for name, srcs in lt.pin_src.items():
+        lits = ", ".join('"' + x.replace("\\", "\\\\").replace('"', '\\"') + '"' for x in srcs)
+        out.append(f"/-- source text of every binding of `{name}` in `{fn}`, in source order (pinned, not "
+                   f"translated: outside the lane subset; a change shows up here) -/\n"
+                   f"def {lean}_pin_{name}_src : List String := [{lits}]\n")
     for o, lets, text, args in results:
         sig = " ".join(f"({a} : BitVec 8)" for a in args)
         call = " ".join(args)
